@@ -378,6 +378,7 @@ pub fn directed() -> Vec<Doc> {
         ],
         strays: vec![],
         secondary_segments: true,
+        table_order: 0,
     };
     let lay = layout_of(&install);
     let mut out = vec![];
@@ -562,6 +563,7 @@ pub fn directed() -> Vec<Doc> {
             }],
             strays: vec![],
             secondary_segments: true,
+            table_order: 0,
         };
         // the long entry read back one byte per call, and in short pieces with interruptions: a
         // reader that mishandles a partial completion may also keep far too much in memory
